@@ -57,6 +57,11 @@ SPACES = {
     # MissingObjectFinder work set popped in every order
     "pop2": dict(NC=2, NTP=4, NT=1, MaxHeads=2, MaxWants=1, Modes='{"detailed"}', IncTag="{TRUE}", Thin="{FALSE}",
                  SFull="{FALSE}", Forge="FALSE", MaxInVain=2, AtomicNeg="TRUE", PopAny="TRUE"),
+    # dangling objects: the receiver also holds <= 2 objects of the sender that its refs do not reach and whose
+    # closure it lacks (a tip left by an interrupted transfer / partial prune); replayed as pushes over every
+    # transport and as fetches with explicit wants
+    "dang2": dict(NC=2, NTP=3, NT=0, MaxHeads=2, MaxWants=1, Modes='{"detailed"}', IncTag="{FALSE}", Thin="{TRUE}",
+                  SFull="{FALSE}", Forge="FALSE", MaxInVain=2, AtomicNeg="TRUE", PopAny="FALSE", MaxDangle=2),
     # ---- thorough only
     # every DAG on 4 commits (diamonds, criss-cross), one sender branch
     "neg4": dict(NC=4, NTP=1, NT=0, MaxHeads=1, MaxWants=1, Modes=ALL_MODES, IncTag="{FALSE}", Thin="{FALSE}",
@@ -82,6 +87,10 @@ NEGATIVE = {   # name -> (constants, invariant that must be reported violated)
     "nc_wants": (dict(NC=2, NTP=3, NT=1, MaxHeads=2, MaxWants=1, Modes='{"detailed"}', IncTag="{FALSE}", Thin="{FALSE}",
                       SFull="{TRUE}", Forge="TRUE", MaxInVain=2, AtomicNeg="TRUE", PopAny="FALSE",
                       Bug='"NoWantCheck"'), "WantValidation"),
+    # a sender that leaves out a wanted tip because the receiver holds that one object (dangling)
+    "nc_dangle": (dict(NC=2, NTP=2, NT=0, MaxHeads=2, MaxWants=1, Modes='{"detailed"}', IncTag="{FALSE}", Thin="{TRUE}",
+                       SFull="{FALSE}", Forge="FALSE", MaxInVain=2, AtomicNeg="TRUE", PopAny="FALSE", MaxDangle=1,
+                       Bug='"SkipPresentWant"'), "ReceiverComplete"),
 }
 
 SITE = {
@@ -151,6 +160,7 @@ def run_big(spec, cfg, **kw):
 def write_cfg(d, name, consts, *, spec, invariants=(), extra=None):
     c = dict(consts)
     c.setdefault("Bug", '"none"')
+    c.setdefault("MaxDangle", 0)
     if extra:
         c.update(extra)
     path = os.path.join(d, name + ".cfg")
@@ -176,6 +186,7 @@ def case_from_state(cs):
         "wants": sorted(list(o) for o in c["wants"]),
         "forged": int(not set(map(tuple, c["wants"])) <= set(map(tuple, c["srefs"]))),
         "mode": c["mode"], "inctag": bool(c["inctag"]), "thin": bool(c["thin"]),
+        "rdang": sorted(list(o) for o in c.get("dg", ())),
     }
 
 
@@ -191,6 +202,8 @@ def case_key(c):
     s += " sh=" + ",".join(map(str, c["sh"])) + (" full" if c.get("full") else "")
     s += " rh=" + (",".join(map(str, c["rh"])) or "-") + " rt=" + (",".join(map(str, c["rt"])) or "-")
     s += " wants=" + ",".join(f"{o[0]}{o[1]}" for o in c["wants"])
+    if c.get("rdang"):
+        s += " receiver-dangling=" + ",".join(f"{o[0]}{o[1]}" for o in c["rdang"])
     return s
 
 
@@ -258,6 +271,10 @@ def vary_gitlinks(U, h):
     return dict(U, lnk=lnk)
 
 
+def via_of(h):
+    return ["path", "tcp", "http"][(h >> 27) % 3]
+
+
 def jobs_for_case(ctx, c, space, k, gitfrac, tid0):
     """the executions of one enumerated case; k = running number (rotates the capability sets)"""
     out = []
@@ -266,12 +283,25 @@ def jobs_for_case(ctx, c, space, k, gitfrac, tid0):
 
     def job(op, transport, caps=None, **kw):
         j = {key: c[key] for key in ("U", "sh", "full", "rh", "rt", "wants", "forged")}
+        if c.get("rdang"):
+            j["rdang"] = c["rdang"]
         j.update(kw)
         j.update(op=op, transport=transport, space=space, caps=caps or {})
         j["gitcheck"] = int((h >> 3) % ctx.pick(4, 2) == 0)
         out.append(j)
     layout = ["loose", "loose", "gitpack", "loose", "bitmap", "loose", "loose", "loose"][(h >> 5) % 8]
     rlayout = ["loose", "loose", "loose", "gitpack", "loose", "loose", "loose", "loose"][(h >> 9) % 8]
+    if space.startswith("dang"):
+        # the receiver holds dangling objects of the sender (the cases without any are those of obj2): a push over
+        # the in-process client always, one over a rotating other transport, and a fetch with explicit wants
+        if not c.get("rdang"):
+            return out
+        job("push", "local")
+        tr = ["tcp", "http", "gitserver", "gitclient", "githttp", "porcelain"][(h >> 22) % 6]
+        job("push", tr, **({"via": via_of(h)} if tr == "porcelain" else {}))
+        job("fetch", ["local", "localpack", "tcp", "gitserver"][(h >> 25) % 4],
+            caps={"mode": c["mode"]} if (h >> 25) % 4 >= 2 else None)
+        return out
     if c["forged"]:
         # a request for an object that is not an advertised value, to every dulwich server
         job("fetch", "tcp", caps={"mode": c["mode"]}, slayout=layout)
@@ -577,7 +607,7 @@ def extra_jobs(ctx):
 
 
 # --------------------------------------------------------------------------- judge
-TRACE_KEYS = ("tid", "U", "op", "snd", "rcv", "sstore", "srefs", "sshal", "r0", "rtips0", "shal0", "depth", "r1", "rtips1", "shal1",
+TRACE_KEYS = ("tid", "U", "op", "snd", "rcv", "sstore", "srefs", "sshal", "dang", "r0", "rtips0", "shal0", "depth", "r1", "rtips1", "shal1",
               "runk", "idbad", "gitok",
               "wants", "mwants", "forged", "inctag", "ok", "cap", "sent", "sunk", "thin", "hk", "haves", "offered", "mode", "srv", "cli",
               "rheads", "miv")
@@ -853,11 +883,11 @@ def check_shallow(ctx, futs, pex):
 def run(ctx):
     d = ctx.tmpdir("c05")
     seed = ctx.seed
-    spaces = ["neg3", "obj2", "pop2"] if ctx.quick else ["neg3", "obj2", "pop2", "neg4", "obj2w", "obj3", "tag2", "pop3"]
+    spaces = ["neg3", "obj2", "pop2", "dang2"] if ctx.quick else ["neg3", "obj2", "pop2", "dang2", "neg4", "obj2w", "obj3", "tag2", "pop3"]
     # how many cases of each space are replayed: 1 / sample_mod of them (deterministic sample, see
     # TransferCases); 0 = none (the space only differs from another one in the model's pop order)
-    sample_mod = ctx.pick({"neg3": 47, "obj2": 61, "pop2": 0},
-                          {"neg3": 2, "obj2": 3, "pop2": 0, "neg4": 11, "obj2w": 17, "obj3": 211, "tag2": 53, "pop3": 0})
+    sample_mod = ctx.pick({"neg3": 47, "obj2": 61, "pop2": 0, "dang2": 11},
+                          {"neg3": 2, "obj2": 3, "pop2": 0, "dang2": 1, "neg4": 11, "obj2w": 17, "obj3": 211, "tag2": 53, "pop3": 0})
     tex = cf.ThreadPoolExecutor(max_workers=8)
     cases_f, mc_f, nc_f = {}, {}, {}
     shallow_f = start_shallow(d, tex)
@@ -963,8 +993,9 @@ def run(ctx):
         "the pack content, their dialogue only when it matches",
         "C git 2.39.5 is the only third implementation; a disagreement between the specification and git on git's own "
         "behaviour is a machinery failure, never a VIOLATION",
-        "receiver stores are complete (closed under reachability, modulo .git/shallow) before the transfer, as the statement "
-        "assumes; sender stores are closed",
+        "receiver stores are complete (they hold everything their refs reach, modulo .git/shallow) before the transfer, as the "
+        "statement assumes; apart from the dangling objects of the dang2 space (objects of the sender that no ref of the "
+        "receiver reaches and whose closure it lacks) they are closed; sender stores are closed",
         "depth-limited fetches are judged by ClosureCut / DepthCut of TransferOps on real transfers (one or two steps: depth, "
         "then deepen / unshallow / ordinary fetch) and by TransferShallow for the client's handling of the shallow-info part; "
         "the object-level negotiation model (MissingObjectFinder conformance, dialogue) is not applied to shallow transfers",
